@@ -115,11 +115,11 @@ def match_bool(s: str, pos: int) -> int:
 
 
 def matchbool(c: Cursor) -> bool | None:
-    if (p := match_bool(c.textstr, c.pos)) is None:
+    if (p := match_bool(c.textstr, c.pos)) < 0:
         return None
     i = c.pos
     c.goto(p)
-    return bool(c.textstr[i:p].capitalize())
+    return c.textstr[i:p].lower() == 'true'
 
 
 def match_uint(s: str, pos: int) -> int:
@@ -138,6 +138,8 @@ def match_uint(s: str, pos: int) -> int:
             return -1
         else:
             break
+    if p == pos:
+        return -1  # no digits: not a match
     return p
 
 
